@@ -1,5 +1,5 @@
 (* C11 — A failed initialiser hands back its error and leaves no residue. *)
-From BV Require Import Word WordFacts ArenaModel ArenaSpec ArenaInv ArenaSafe ArenaRewind.
+From BV Require Import Word WordFacts ArenaModel ArenaSpec ArenaInv ArenaSafe ArenaStruct ArenaRewind ArenaTw.
 From Coq Require Import Lia.
 
 (* if the slot for the value cannot be reserved, nothing is pending: the
@@ -27,10 +27,16 @@ Theorem C11_ok_keeps_slot :
   forall k b t ts, tws b = t :: ts ->
     tw_end k b true = (set_tws b ts, out_of (ROk (tw_res t))).
 Proof. intros k b t ts E. unfold tw_end. rewrite E. reflexivity. Qed.
-(* Not yet a theorem: that blocks the initialiser allocated and kept stay valid
-   when the rewind happens (the no_rewind side condition of C01); that, and the
-   exactly-once delivery of the error value, are decided on the implementation
-   (sp_block_ok, contents checks, error-value checks of the driver). *)
+
+(* whatever the initialiser allocated and kept, and whatever else is live or reserved, stays
+   in-bounds and disjoint when the finger is rewound (or left alone): the failed
+   initialiser leaves a state satisfying the full invariant, from every reachable state *)
+Theorem C11_rewind_keeps_everything_valid :
+  forall k A b live, cfg_ok k -> Inv2 k (b, live) -> tws b <> [] -> A_ok k A b ->
+    Inv2 k (fst (gstep k A (b, live) (OTwEnd false))).
+Proof. intros k A b live K HI Hne HA. apply gstep_inv2; assumption. Qed.
+(* Not a theorem here: the exactly-once delivery of the error value (decided on the
+   implementation by the driver's error-value checks). *)
 
 Example C11_witness :
   let k := mkCfg 48 16 64 448 4096 1 1000 in
@@ -43,4 +49,5 @@ Proof. vm_compute. repeat split; reflexivity. Qed.
 
 Print Assumptions C11_no_run_without_space.
 Print Assumptions C11_rewind_restores.
+Print Assumptions C11_rewind_keeps_everything_valid.
 Print Assumptions C11_ok_keeps_slot.
